@@ -2,7 +2,7 @@ use smallvec::smallvec;
 use std::{borrow::Cow, time::Duration};
 
 use autosar_data_specification::{
-    AttributeName, AttributeSpec, AutosarVersion, ContentMode, ElementMultiplicity, ElementName,
+    AttributeName, AttributeSpec, AutosarVersion, ContentMode, ElementMultiplicity, ElementName, ElementType,
 };
 use fxhash::FxHashMap;
 #[cfg(not(feature = "verif"))]
@@ -499,7 +499,14 @@ impl ElementRaw {
         // Arc overrides clone() so that it only manipulates the reference count, so a separate deep_copy operation is needed here.
         // Additionally, implementing this manually provides the opportunity to filter out
         // elements that are not compatible with the version of the current file.
-        let newelem = other.0.read().deep_copy(version)?;
+        // the copy gets the element type that is used at the destination in the version of the destination
+        let other_raw = other.0.read();
+        let elemtype = self
+            .elemtype
+            .find_sub_element(other_raw.elemname, version as u32)
+            .map_or(other_raw.elemtype, |(elemtype, _)| elemtype);
+        let newelem = other_raw.deep_copy(elemtype, version)?;
+        drop(other_raw);
         let path = self.path_unchecked()?;
 
         // set the parent of the newelem - the methods path(), containing_file(), etc become available on newelem
@@ -560,10 +567,13 @@ impl ElementRaw {
     }
 
     /// perform a deep copy of an element, but keep only those sub elements etc, which are compatible with `target_version`
-    fn deep_copy(&self, target_version: AutosarVersion) -> Result<Element, AutosarDataError> {
+    ///
+    /// `elemtype` is the type of the copy: an element can have a different type in the target version, with
+    /// different attributes and sub elements; all content must be judged according to that type
+    fn deep_copy(&self, elemtype: ElementType, target_version: AutosarVersion) -> Result<Element, AutosarDataError> {
         let copy_wrapped = ElementRaw {
             elemname: self.elemname,
-            elemtype: self.elemtype,
+            elemtype,
             content: SmallVec::with_capacity(self.content.len()),
             attributes: SmallVec::with_capacity(self.attributes.len()),
             parent: ElementOrModel::None,
@@ -577,15 +587,15 @@ impl ElementRaw {
             // copy all the attributes
             for attribute in &self.attributes {
                 // get the specification of the attribute
-                let AttributeSpec {
+                let Some(AttributeSpec {
                     spec: cdataspec,
                     required,
                     version: attr_version_mask,
-                } = self.elemtype.find_attribute_spec(attribute.attrname).ok_or(
-                    AutosarDataError::VersionIncompatibleData {
-                        version: target_version,
-                    },
-                )?;
+                }) = elemtype.find_attribute_spec(attribute.attrname)
+                else {
+                    // the element type used in the target version does not have this attribute
+                    continue;
+                };
                 // check if the attribute is compatible with the target version
                 if target_version.compatible(attr_version_mask)
                     && attribute
@@ -609,12 +619,8 @@ impl ElementRaw {
                     ElementContent::Element(sub_elem) => {
                         let sub_elem_name = sub_elem.element_name();
                         // since find_sub_element already considers the version, finding the element also means it's valid in the target_version
-                        if self
-                            .elemtype
-                            .find_sub_element(sub_elem_name, target_version as u32)
-                            .is_some()
-                        {
-                            if let Ok(copied_sub_elem) = sub_elem.0.read().deep_copy(target_version) {
+                        if let Some((sub_elemtype, _)) = elemtype.find_sub_element(sub_elem_name, target_version as u32) {
+                            if let Ok(copied_sub_elem) = sub_elem.0.read().deep_copy(sub_elemtype, target_version) {
                                 copied_sub_elem.0.write().parent = ElementOrModel::Element(copy_wrapped.downgrade());
                                 copy.content.push(ElementContent::Element(copied_sub_elem));
                             }
